@@ -224,6 +224,13 @@ def oracle(ctx, it, res, fields, heads):
         if len(idx) != len(cv[0]) or cv[1:] != want:
             out.append(('table:CARBON REVENUE PROFILE:rows', 'the carbon revenue view is not the carbon columns of the printed revenue table',
                         want[:2], cv[:3]))
+    # one object: as_csv() leaves .result alone and gives the same text every time
+    if not res.get('result_kept', True):
+        out.append(('csv:mutates-result', 'as_csv() changes the parsed result it exports (.result differs after the call)',
+                    'the result as parsed', res.get('result_after')))
+    if res['csv'] is not None and (res.get('csv2') != res['csv']):
+        out.append(('csv:second-call', 'a second as_csv() on the same object does not return the same text',
+                    'the same csv text', res.get('csv2_raised') or 'another text'))
     # csv
     if res['csv'] is None:
         out.append(('csv:raised', 'as_csv raises on this report', 'csv text', res['csv_raised']))
@@ -544,7 +551,10 @@ def correspondence(ctx, proofs_ok=True):
     jcmp = []
     sigs = set()
     for idx, (it, res) in enumerate(zip(items, results)):
-        viol = oracle(ctx, it, res, fields, heads)
+        try:
+            viol = oracle(ctx, it, res, fields, heads)
+        except Exception as e:  # noqa  (an unexpected shape of the client's answer is an observation, not a harness failure)
+            viol = [('shape:' + type(e).__name__, f'the client result has an unexpected shape: {e!r}', 'a well-formed result', str(res['result'])[:300])]
         for s in SEEDS[1:]:
             o = by_seed[s][idx]
             if (o['result'], o['csv'], o['raised']) != (res['result'], res['csv'], res['raised']):
